@@ -1058,10 +1058,9 @@ func runC04(a runArgs) error {
 				if x <= 2 && y <= 2 {
 					continue
 				}
-				for _, m := range []int{1152, 2048, 4096} {
-					if (x == 7 || y == 7) || m == 1152 {
-						pairs = append(pairs, pair{x, m, y, m})
-					}
+				pairs = append(pairs, pair{x, 1152, y, 1152})
+				if x == 7 || y == 7 {
+					pairs = append(pairs, pair{x, 2048, y, 2048}, pair{x, 4096, y, 4096})
 				}
 			}
 		}
@@ -1086,8 +1085,8 @@ func runC04(a runArgs) error {
 				sizes = append(sizes, buf-1, buf, buf+1, 2*buf, 2*buf+1, 3*buf+5)
 			}
 		}
-		if s >= 512 && !thorough {
-			// quick: the block boundaries only
+		if s >= 512 && !thorough || s >= 256 && thorough {
+			// the block boundaries only
 			sizes = []int{0, s, s + 1, 2*s + 1, 3*s + 5}
 			if p.a == 7 && p.b == 7 {
 				buf := min2(p.ma, p.mb) / 1024 * 1024
@@ -1097,7 +1096,7 @@ func runC04(a runArgs) error {
 			}
 		}
 		for fl := 0; fl <= 6; fl++ {
-			if s >= 512 && !thorough && fl >= 5 {
+			if s >= 512 && fl >= 5 {
 				continue
 			}
 			for _, n := range sizes {
@@ -1113,8 +1112,8 @@ func runC04(a runArgs) error {
 		{0, 1, 0, 70}, {2, 0, 1, 53}, {1, 1, 0, 48}, {4, 0, 1, 40}, {0, 0, 0, 16}, {1, 0, 0, 16}, {2, 0, 0, 17}}
 	double := []base{{2, 0, 0, 17}}
 	if thorough {
-		double = append(double, base{2, 0, 0, 33}, base{0, 0, 0, 37}, base{1, 0, 0, 33}, base{4, 0, 0, 33}, base{2, 1, 0, 50}, base{3, 0, 0, 40})
-		single = append(single, base{0, 6, 6, 2049}, base{2, 7, 7, 3000}, base{1, 7, 6, 2500})
+		double = append(double, base{0, 0, 0, 37})
+		single = append(single, base{0, 6, 6, 2049}, base{2, 7, 7, 3000}, base{1, 7, 6, 2500}, base{2, 1, 0, 50}, base{3, 0, 0, 40})
 	}
 	for _, b := range single {
 		cfg := c04Base(b.fl, b.a, 1152, b.b, 1152, b.n)
@@ -1139,9 +1138,9 @@ func runC04(a runArgs) error {
 				L++
 			}
 		}
-		kinds := nFaultKinds
-		if !thorough {
-			kinds = fBump // quick: the seven network faults
+		kinds := fBump // the seven network faults
+		if thorough && b.n == 17 {
+			kinds = nFaultKinds
 		}
 		for p1 := 0; p1 <= L; p1++ {
 			for k1 := 0; k1 < kinds; k1++ {
@@ -1203,7 +1202,7 @@ func runC04(a runArgs) error {
 	// (4) random: 1..3 concurrent tokens, random interleaving and faults
 	nrand := 400
 	if thorough {
-		nrand = 6000
+		nrand = 2000
 	}
 	for i := 0; i < nrand; i++ {
 		g := rng.Fork()
